@@ -1,5 +1,5 @@
 #!/bin/sh
-# Mutation sanity for FX-C01-NFKCUSERINFO (run from the framework root; /tmp/nfkc-repo = /repo + the patch
+# Mutation sanity for FX-C01-194b1c7 (run from the framework root; /tmp/nfkc-repo = /repo + the patch
 # notes/fixes/canonicalize-userinfo-nfkc-delimiters.diff).  Copies, no git worktree of /repo needed.
 # Each mutant keeps the 96 tests of the repository passing.
 #   m0  the wrapper dropped (= plain /repo):  ./check C01 -> VIOLATION, 346 disagreements, 154 oracle failures,
